@@ -65,11 +65,17 @@ impl StopwatchStart {
     }
 
     pub(crate) fn snapshot(&self) -> StopwatchSnapshot {
+        // If the stopwatch is currently paused, the time since it was paused isn't part of
+        // paused_time yet, and must not be counted as active.
+        let elapsed = match &self.pause_state {
+            StopwatchPauseState::Running => self.instant.elapsed(),
+            StopwatchPauseState::Paused { paused_at } => paused_at.duration_since(self.instant),
+        };
         StopwatchSnapshot {
             start_time: self.start_time,
             // self.instant is supposed to be monotonic but might not be so on
             // some weird systems. If the duration underflows, just return 0.
-            active: self.instant.elapsed().saturating_sub(self.paused_time),
+            active: elapsed.saturating_sub(self.paused_time),
             paused: self.paused_time,
         }
     }
